@@ -116,6 +116,10 @@ class Gen:
         # (B and C keep the program out of the corner the property leaves open)
         self.mode = r.choice("AAAAABBBBCCD")   # D: condition-position calls, nothing avoided
         self.fnames = ["f%d" % k for k in range(nf)]
+        if r.random() < 0.2:
+            # a function may take the short name of a standard command (the definition takes the name over; seed C05-w5-m1:
+            # such a function never became callable); names of commands the generated programs do not use
+            self.fnames = r.sample(["trim", "length", "uppercase", "range", "contains", "camelcase", "noop", "dirname", "concat", "echo"], nf)
         self.scoped = [r.random() < 0.4 for _ in range(nf)]
         self.arrays = []
         main_pre = []
@@ -357,6 +361,10 @@ def run(ck):
     ok, _ = ck.coq_build(["props/C05.vo", "extract/C05_extract.vo"])
     ck.print_assumptions(["DSP.C05"], ["DSP.C05." + t for t in THEOREMS])
     ck.source_tie("findcmds")
+    ck.source_tie("flowfor")
+    ck.source_tie("flowwhile")
+    ck.source_tie("flowfn")
+    ck.source_tie("flowif")
     ck.hygiene()
     ck.ocaml_build()
     ck.harness_build(["c05"])
